@@ -20,10 +20,10 @@ checks = {
  "C01": ("exploration", "Seeded operation sequences on the real engine under the simulator, compared op by op with a reference log+cursor model (both read APIs, all budgets, sizes 0..multi-block, both backends, both consistency modes, both geometries). Tests sample a handful of sequences; this samples thousands per minute with boundary-biased sizes and budgets.", "§4 C01", "deterministic simulation: seeded op sequences vs reference model"),
  "C02": ("exploration", "C01 workload plus peeks and offset-addressed reads, each peek paired with its consuming twin and bracketed by snapshots of the reclamation bookkeeping (hook accessor); any later read/count disagreement with the model is attributed to the non-consuming calls.", "§4 C02", "deterministic simulation: peek/consume twins, bookkeeping snapshots, reference model"),
  "C03": ("exploration", "Batch reads with budgets from boundary sets (0,1,next+-1,two+-1,block,usize::MAX-k) at model-chosen cursor positions; the three inequalities of the statement are checked against the reference model.", "§4 C03", "deterministic simulation: boundary budgets vs reference model"),
- "C04": ("fault_enumeration", "Three profiles by seed: every rejection cause interleaved with successful appends; one injected I/O failure per run at sampled I/O events of appends (failed create/set_len/fsync/msync/dir-fsync, failed io_uring submission, failed or short completion, failed pwrite) followed by the rest of the workload and a restart; concurrent readers polling during batches. A failed operation must leave the reference model untouched, now and after restart; no reader sees part of a batch.", "§4 C04", "deterministic simulation: rejected operations, injected I/O failures at enumerated events, concurrent readers"),
+ "C04": ("fault_enumeration", "Three profiles by seed: every rejection cause interleaved with successful appends; one injected I/O failure per run at sampled I/O events of appends (failed create/set_len/fsync/msync/dir-fsync, failed io_uring submission, failed or short completion, failed pwrite) followed by the rest of the workload and a restart; concurrent readers polling during batches. A failed operation must leave the reference model untouched, now and after restart; no reader sees part of a batch; a run whose injected failure fired must not end in non-termination (a later append that never returns).", "§4 C04, §14.2", "deterministic simulation: rejected operations, injected I/O failures at enumerated events, concurrent readers"),
  "C06": ("exploration", "2-5 incarnations (fresh processes) plus same-process reopen, wall clock moving forward or backward between runs, rejected operations and multi-block payloads interleaved; the model has no restart operation.", "§4 C06", "deterministic simulation: restart histories with simulated wall clock vs restart-free model"),
  "C05": ("exploration", "2-4 real client threads on shared topics, one runnable at a time, every lock/atomic/channel/I-O point a seeded scheduling decision (random walk, sticky, PCT); the physical log order comes from an independent pass (fresh process, cursor index removed); exactly-once, producer order, batch contiguity, per-read monotonicity and real-time order between reads (simulator step numbers) are checked on the history.", "§4 C05", "deterministic simulation: seeded thread schedules, history checked against physical log order"),
- "C07": ("fault_enumeration", "Producer workloads are numbered by a fault-free pass, then re-run with the process terminated before sampled/enumerated I/O events (plus torn mmap stores and arbitrary completed subsets of io_uring batches); a fresh process must recover every acknowledged entry in order, extras only from operations in flight.", "§4 C07", "deterministic simulation: crash at enumerated I/O events, recovery read-back"),
+ "C07": ("fault_enumeration", "Producer workloads are numbered by a fault-free pass, then re-run with the process terminated before sampled/enumerated I/O events (plus torn mmap stores and arbitrary completed subsets of io_uring batches; with several client threads the crashing thread is first held back by a slow-thread fault in half of the variants, and rotation-race workloads hand out blocks of different topics back to back); optionally the recovered process keeps appending and ends without a clean close; a fresh process must recover every acknowledged entry in order, extras only from operations in flight.", "§4 C07, §14.2", "deterministic simulation: crash at enumerated I/O events, recovery read-back"),
  "C08": ("fault_enumeration", "One batch in flight; crash before each of its I/O events, after sampled subsets of its io_uring writes, between and inside the sequential stores of the mmap path; recovered topic must contain all or none of the batch.", "§4 C08", "deterministic simulation: crash inside a batch, subset enumeration of io_uring completions"),
  "C09": ("fault_enumeration", "Appends and consuming reads (Strict and AtLeastOnce{1..8}), 1-2 working incarnations, crash before every I/O event incl. the three events of an index persist; resume position compared with the consumer's acknowledgement log.", "§4 C09", "deterministic simulation: crash at enumerated I/O events, resume position vs ack log"),
  "C10": ("fault_enumeration", "SyncEach workloads recorded as a byte-accurate I/O trace; a model file system decides durability (O_SYNC, fsync/msync per file, directory fsync for namespace operations); sampled trace prefixes x {nothing, everything, half} of the not-yet-durable items are materialised and opened in a fresh process.", "§4 C10", "deterministic simulation: recorded I/O trace replayed into a power-loss model, materialised cuts"),
